@@ -10,7 +10,7 @@ mkdir -p "$DST"
 D=$(mktemp -d /tmp/sedseed.XXXXXX)
 git -C /repo worktree add --detach "$D" HEAD >/dev/null 2>&1 || { echo "worktree failed"; exit 2; }
 run_demo() { ( cd "$D" && mkdir -p seed_out && cp "$DST/demo.py" seed_out/demo.py && PYTHONPATH="$D" PYTHONDONTWRITEBYTECODE=1 timeout 300 /venv/bin/python -W ignore seed_out/demo.py >$D.demo.out 2>&1; echo $? ); }
-sed -i "s|/tmp/seed_[A-Za-z0-9_]*|$D|g" "$DST/demo.py" 2>/dev/null   # demos that hard-code their worktree path
+sed -i "s|/tmp/seed[0-9]*_[A-Za-z0-9]*|$D|g" "$DST/demo.py" 2>/dev/null   # demos that hard-code their worktree path
 rc0=$(run_demo)
 ( cd "$D" && git apply "$DST/patch.diff" ) || { echo "patch does not apply"; git -C /repo worktree remove --force "$D"; exit 2; }
 rc1=$(run_demo); tail -3 $D.demo.out | cut -c1-300 > $D.demo.tail
